@@ -252,6 +252,37 @@ def run_headmap(ctx, n):
         if not ok:
             ctx.corr_break(ob, {"input": {"function": "build_head_mapping", "series": series, "step": step},
                                 "impl": got, "model": m["mapping"]})
+            continue
+        # the same crossings as the curve fit sees them: get_series_time_offsets (times relative to the start of each
+        # series, series numbered as passed in); which levels it keeps is C08's subject, what it reports for a kept level is ours
+        try:
+            _ids, _offs, out = fo.get_series_time_offsets([(np.array(x), np.array(y)) for x, y in series], step)
+        except Exception:  # noqa  (nothing to align, disconnected sets: C05/C08)
+            ctx.count("headmap_sets_not_aligned")
+            continue
+        ctx.count("headmap_sets_through_get_series_time_offsets")
+        wantd = {k: dict(v) for k, v in want}
+        t0 = {i_: min(xs_) for i_, (xs_, _ys) in enumerate(series)}
+        wit = None
+        for k, v in sorted(out.items()):
+            if int(k) not in wantd or sorted(int(s) for s, _t in v) != sorted(wantd[int(k)]):
+                wit = {"why": "a crossing is reported for a level or series that does not cross it", "level_id": int(k),
+                       "level": int(k) * step, "reported_series": sorted(int(s) for s, _t in v),
+                       "series_crossing_it": sorted(wantd.get(int(k), {}))}
+                break
+            for s_, t_ in v:
+                tq = wantd[int(k)][int(s_)] - Fraction(t0[int(s_)])
+                if abs(Fraction(float(t_)) - tq) > Fraction(1e-9 * span[int(s_)] + 16 * 2.3e-16 * (abs(float(t_)) + abs(t0[int(s_)])) + 4e-12):
+                    wit = {"why": "the reported crossing is not where the line between the bracketing samples reaches the level",
+                           "level_id": int(k), "level": int(k) * step, "series": int(s_), "reported": float(t_), "expected": float(tq)}
+                    break
+            if wit:
+                break
+        ctx.obligation(ob, wit is None)
+        if wit:
+            ctx.violation("impl-violation", "c12Holds", {"input": {"function": "get_series_time_offsets", "series": series, "step": step},
+                          "impl": sorted((int(k), sorted((int(s), float(t)) for s, t in v)) for k, v in out.items())[:6],
+                          "oracle": {"name": "c12Holds", "result": False, "witness": wit}})
 
 
 def run(ctx):
